@@ -475,6 +475,10 @@ func runC07(cfg *vh.Config) error {
 	// ---- stream 3: malformed inputs (random bytes, byte flips, token mutations) through Compile and LintFile
 	rMut := cfg.R.Fork("mut")
 	nMut := cfg.Scale(350, 12000)
+	if len(corpus) == 0 {
+		// nothing compiled (every case above failed and was reported): mutate a fixed seed so the run completes
+		corpus = append(corpus, map[string]string{mainFile: "package foo.v1\n\nobject Foo {\n  field f string\n}\n"})
+	}
 	mutContents := make([]map[string]string, nMut)
 	mutHow := make([]string, nMut)
 	for i := 0; i < nMut; i++ {
@@ -616,7 +620,7 @@ func runC07(cfg *vh.Config) error {
 		for _, t := range walkerInputs() {
 			add(t, "walker-directed")
 		}
-		nValid := cfg.Scale(60, 400)
+		nValid := cfg.Scale(40, 400)
 		for i, c := range corpus {
 			if i >= nValid {
 				break
@@ -637,7 +641,7 @@ func runC07(cfg *vh.Config) error {
 				}
 			}
 		}
-		nMutFront := cfg.Scale(150, 3000)
+		nMutFront := cfg.Scale(110, 3000)
 		for i := 0; i < nMut && i < nMutFront; i++ {
 			add(mutContents[i][mainFile], "malformed: "+mutHow[i])
 		}
